@@ -31,4 +31,10 @@ MergeRefinesConcat ==
             /\ DocSeq(St) = DocSeq(S1) \o DocSeq(S2)
             /\ SeekCorrect(St)
             /\ DocSeq(St) = DocSeq(Recompress(<<S1, S2>>, <<AllAlive(S1), AllAlive(S2)>>, sizeOf, BlockSize))
+       \* the merger itself (per source: stack or copy document by document), both orders
+       /\ \A A \in SUBSET AllAlive(S1) :
+            LET M1 == Merge(<<S1, S2>>, <<A, AllAlive(S2)>>, sizeOf, BlockSize)
+                M2 == Merge(<<S2, S1>>, <<AllAlive(S2), A>>, sizeOf, BlockSize)
+            IN /\ DocSeq(M1) = Live(S1, A) \o DocSeq(S2) /\ SeekCorrect(M1)
+               /\ DocSeq(M2) = DocSeq(S2) \o Live(S1, A) /\ SeekCorrect(M2)
 =============================================================================
